@@ -117,6 +117,20 @@ class SymCtx:
         self.eng.assume(v == hi)
         return hi
 
+    def concretize(self, x, lo, hi):
+        """fork over the feasible values of an integer-valued term within [lo, hi]"""
+        if not isinstance(x, SymNum):
+            return int(x)
+        t = x.t
+        if self.pinned:
+            v = z3.simplify(t)
+            return v.as_long() if z3.is_int_value(v) else int(Fraction(v.numerator_as_long(), v.denominator_as_long()))
+        for val in range(lo, hi):
+            if self.eng.branch(t == val):
+                return val
+        self.assume(t == hi)
+        return hi
+
     def boolean(self, name):
         if self.pinned:
             raw = self.pinned_inputs[name]
